@@ -147,6 +147,29 @@ def main():
         raise ValueError("init() has %d raise statements" % k)
     g.attempt("cfg.initGuard", True, init_guard)
 
+    def super_guard():
+        # the parent queries of init() and of the init drill-down in dispatch raise when the handler returns None
+        fn_init = find_func(P, "init")
+        fn_disp = dispatch_fn()
+        def guarded_queries(fn):
+            n = 0
+            for node in ast.walk(fn):
+                if isinstance(node, ast.If) and any(isinstance(x, ast.Raise) for x in ast.walk(node)):
+                    t = unparse(node.test)
+                    if t.endswith("is None") and ("super_e" in t or t.strip() == "r is None"):
+                        n += 1
+            return n
+        a, b = guarded_queries(fn_init), 0
+        for node in ast.walk(fn_disp):
+            if isinstance(node, ast.While) and "init_e" in unparse(node.test):
+                b = guarded_queries(node)
+        if a >= 1 and b >= 2:
+            return True
+        if a == 0 and b == 0:
+            return False
+        raise ValueError("parent queries of init() / the drill-down are only partly checked (%d, %d)" % (a, b))
+    g.attempt("cfg.superGuard", True, super_guard)
+
     def query_restores():
         hits = []
         for name in ("is_in", "child_state"):
@@ -666,8 +689,8 @@ def main():
     lines.append("def signalTable : List (String × Nat) := " + table(v["innerSignals"]))
     for k in ("spyCap", "trcCap", "rtcCap", "queueCap"):
         lines.append("def %s : Nat := %d" % (k, v[k]))
-    lines.append("def cfg : Miros.Hsm.Cfg := { resync := %s, drillGuard := %s, initGuard := %s }" % (
-        b(v["cfg.resync"]), b(v["cfg.drillGuard"]), b(v["cfg.initGuard"])))
+    lines.append("def cfg : Miros.Hsm.Cfg := { resync := %s, drillGuard := %s, initGuard := %s, superGuard := %s }" % (
+        b(v["cfg.resync"]), b(v["cfg.drillGuard"]), b(v["cfg.initGuard"]), b(v["cfg.superGuard"])))
     lines.append("def queryRestoresName : Bool := " + b(v["queryRestoresName"]))
     lines.append("def ldAlg : Miros.Conc.LD.Alg := .%s" % v["ldAlg"])
     lines.append("def ldCapsEqual : Bool := " + b(v["ldCapsEqual"]))
